@@ -21,7 +21,7 @@ PLAN = dict(
     level_note=NOTE_BASE,
     runs=[
         dict(name="conc", run="^(TestConcTamper)$", checks=(40, 2000), shards=(2, 8), timeout=(400, 3600), race=True),
-        dict(name="flips", run="^(TestExhaustiveFlips|TestFieldSweep|TestCorpus)$", shards=(3, 16), timeout=(300, 3600)),
+        dict(name="flips", run="^(TestExhaustiveFlips|TestFieldSweep|TestSigAlg|TestCorpus)$", shards=(3, 16), timeout=(300, 3600)),
         dict(name="tamper", run="^TestPropTamper$", checks=(2500, 200000), shards=(2, 16), timeout=(300, 3600)),
     ],
     require=[("tamper", "rejected-at-read"), ("tamper", "rejected-at-verify"), ("tamper", "accepted-benign"), ("tamper", "mut:fetcher"),
